@@ -331,6 +331,20 @@ func (g *gen) program() (*zn.Program, map[string]*zn.Program) {
 			p.Body = append(p.Body, show("main-probe-module", &zn.Call{Name: "G2", Args: []zn.Expr{num(float64(c))}}))
 		}
 	}
+	// the same protected calls far down the call stack (any call depth)
+	if g.pick(3, "deep") == 0 {
+		k := []int{200, 250, 254, 255, 256, 257, 258, 300, 511, 512, 513, 1000}[g.pick(12, "deepk")]
+		p.Body = append(p.Body,
+			&zn.FuncDef{Name: "深", Params: []string{"N"}, Body: []zn.Stmt{
+				&zn.If{Conds: []zn.Expr{&zn.Bin{Op: "<=", L: v("N"), R: num(0)}}, Blocks: [][]zn.Stmt{{&zn.Return{E: &zn.Call{Name: "F1", Args: []zn.Expr{num(3)}}}}}},
+				&zn.Let{Names: []string{"深果"}, E: &zn.Call{Name: "深", Args: []zn.Expr{&zn.Bin{Op: "-", L: v("N"), R: num(1)}}}},
+				&zn.Return{E: v("深果")},
+			}},
+			&zn.Let{Names: []string{"Rdeep"}, E: &zn.Call{Name: "深", Args: []zn.Expr{num(float64(k))}}},
+			show("main-after-deep", v("Rdeep"), v("Lmain")), show("main-probe-deep", &zn.Call{Name: "Helper", Args: []zn.Expr{num(9)}}))
+		g.labels[fmt.Sprintf("handled-at-depth>=%d", (k/256)*256)] = true
+		g.labels["deep-call-stack"] = true
+	}
 	if g.pick(4, "final-fault") == 0 {
 		g.labels["final-uncaught-fault"] = true
 		p.Body = append(p.Body, &zn.ExprStmt{E: &zn.Call{Name: "F1", Args: []zn.Expr{&zn.Bin{Op: "/", L: num(1), R: num(0)}}}})
